@@ -5,7 +5,9 @@ package internal
 import (
 	"container/list"
 	"context"
+	"fmt"
 	"math"
+	"os"
 	"sync"
 	"testing"
 	"time"
@@ -330,6 +332,9 @@ const (
 	c09EpsZipf          = 0.08
 )
 
+// VERIF_C09_CALIBRATE=1: never fail, only record the worst values (used to set the thresholds)
+var c09Calibrate = os.Getenv("VERIF_C09_CALIBRATE") != ""
+
 func execC09(c c09Case, x *verifkit.Ctx) *verifkit.Failure {
 	res, f := runC09(c)
 	if f != nil {
@@ -346,6 +351,12 @@ func execC09(c c09Case, x *verifkit.Ctx) *verifkit.Failure {
 		if c.MaxSize < 300 {
 			small = "/small-cache(<300)"
 		}
+		if c09Calibrate {
+			if res.hotRatio < 0.97 || res.hotResident < 0.97 {
+				fmt.Printf("CALIB store %+v ratio=%.3f resident=%.3f\n", c, res.hotRatio, res.hotResident)
+			}
+			return nil
+		}
 		if res.hotRatio < c09ThetaHotRatio {
 			return verifkit.Failf(c09Sig("admission/hot-set-hit-ratio", small), "hot-set hit ratio over the last 30%% of the trace is %.3f (< %.2f): MaxSize %d, hot set %d%% of the cache, %d%% reads, %s, mixed costs %v, pre-phase %d", res.hotRatio, c09ThetaHotRatio, c.MaxSize, c.HotPct, c.ReadPct, c.Kind, c.Mixed, c.Pre)
 		}
@@ -357,6 +368,12 @@ func execC09(c c09Case, x *verifkit.Ctx) *verifkit.Failure {
 		}
 	} else {
 		verifkit.Extra("min_zipf_minus_lru_x1000", c09Min("zl", int64((res.zipfRatio-res.lruRatio)*1000)))
+		if c09Calibrate {
+			if res.zipfRatio < res.lruRatio-0.03 {
+				fmt.Printf("CALIB zipf %+v tlfu=%.3f lru=%.3f\n", c, res.zipfRatio, res.lruRatio)
+			}
+			return nil
+		}
 		if res.zipfRatio < res.lruRatio-c09EpsZipf {
 			return verifkit.Failf("admission/worse-than-lru", "zipf(s=%.2f) hit ratio %.3f is below LRU's %.3f by more than %.2f: MaxSize %d, universe x%d, %s, mixed costs %v, pre-phase %d", float64(c.Skew100)/100, res.zipfRatio, res.lruRatio, c09EpsZipf, c.MaxSize, c.Universe, c.Kind, c.Mixed, c.Pre)
 		}
@@ -523,6 +540,12 @@ func execC09p(c c09pCase, x *verifkit.Ctx) *verifkit.Failure {
 		verifkit.Extra("policy_min_hot_resident_x1000", c09Min("phres", int64(res*1000)))
 		x.Class("phase1-" + c.Phase1)
 		x.ClassIf(windowBefore != NewTinyLfu[int, int](uint(c.MaxSize), s.p.hasher).window.capacity, "window-moved-by-previous-life")
+		if c09Calibrate {
+			if ratio < 0.97 || res < 0.97 {
+				fmt.Printf("CALIB policy %+v ratio=%.3f resident=%.3f window=%d\n", c, ratio, res, s.p.window.capacity)
+			}
+			return nil
+		}
 		if ratio < c09ThetaHotRatio || res < c09ThetaHotResident {
 			return verifkit.Failf("admission/policy/hot-set-not-retained", "bare policy, MaxSize %d, previous life %s (%d ops, window capacity %d afterwards): hot set of %d keys with %d one-off inserts per read: hit ratio over the last quarter of %d passes %.3f, %.1f%% of the hot keys resident (window capacity now %d, climber step %.4f)", c.MaxSize, c.Phase1, c.P1Ops, windowBefore, hot, c.Flood, c.Rounds, ratio, 100*res, s.p.window.capacity, s.p.step)
 		}
